@@ -178,6 +178,27 @@ def witness():
     return bool(fails), f"{WITNESS} -> {fails[0][1] if fails else 'ok'}"
 
 
+def hook_cases(R, n):
+    """oracle-only: hooks that veto a move by raising, call the API themselves, or return parameters the move is refused for
+    (builder_common.hook_sessions).  For every linear move the registered hooks are called once each, in registration order, up to
+    the first one that raises - also for the moves that follow a vetoed one."""
+    for case, events, _specs in bc.hook_sessions(R.rng, n):
+        R.evaluations += 1
+        R.count("hook-sessions")
+        for k, e in enumerate(events):
+            if e["name"] not in ("move", "move_absolute"):
+                continue
+            reg, got = e["registered"], e["hooks"]
+            R.count("hook-sessions:move " + ("vetoed" if e["raised"] == "RuntimeError" else "refused" if e["raised"] else "done"))
+            if e["name"] == "move_absolute" and e["raised"] in ("ValueError",) and not got:
+                continue                      # refused by the validation that precedes the hooks
+            ok = got == reg[:len(got)] and (len(got) == len(reg) or e["raised"] == "RuntimeError") and len(got) >= 1
+            if not ok:
+                R.fail(dict(case, step=k), f"`{e['call']}` ({'raised ' + e['raised'] if e['raised'] else 'done'}) called hooks {got}, "
+                       f"registered {reg}: every hook is called once per linear move, in order, up to the first that raises", tag="hook-calls")
+                break
+
+
 def run(R: core.Run):
     R.rule = ("random histories of moves, rapids, absolute-bypass moves, polylines, distance- and extrusion-mode switches and E "
               "resets with a recording hook, an F limiter (parameter-modifying) and the bundled extrusion hook with random "
@@ -188,6 +209,7 @@ def run(R: core.Run):
                              "dist rel", "move x=1 y=1 F:50", "moveabs x=0 F:700", "probe towards z=-1 F:20", "hook remove record", "move y=2"]],
                "corpus")
     correspond(R, [gen_history(R) for _ in range(R.n(1000, 20000))], "random")
+    hook_cases(R, R.n(200, 2500))
     if R.broken:
         R.search_batches += 1
         for _ in range(R.n(1000, 5000)):
